@@ -24,11 +24,13 @@ pub struct LifeOpts {
     pub timeout_ms: u64,
     /// Drop listeners early and often (requests cross ListenerFinish).
     pub ldrop: bool,
+    /// Toggle sink back-pressure on either direction during the active phase.
+    pub bp: bool,
 }
 
 impl Default for LifeOpts {
     fn default() -> Self {
-        LifeOpts { connects: 5, cancel: true, defer: 1, data: true, max_ports: 4, calm: false, fault_kind: "", fault_dir: 1, fault_at: 0, timeout_ms: 0, ldrop: false }
+        LifeOpts { connects: 5, cancel: true, defer: 1, data: true, max_ports: 4, calm: false, fault_kind: "", fault_dir: 1, fault_at: 0, timeout_ms: 0, ldrop: false, bp: false }
     }
 }
 
@@ -79,6 +81,7 @@ struct PortObj {
     rx_closed: bool,
     sends: u64,
     tx_failed: bool,
+    over: bool,
 }
 
 fn conn_err(e: &ConnectError) -> &'static str {
@@ -151,6 +154,7 @@ pub async fn scenario(seed: u64, opts: &LifeOpts) -> (u64, u64) {
                 rx_closed: false,
                 sends: 0,
                 tx_failed: false,
+                over: false,
             });
         }};
     }
@@ -174,7 +178,14 @@ pub async fn scenario(seed: u64, opts: &LifeOpts) -> (u64, u64) {
         let mut acted = false;
         let ep = rng.range(1, 2);
         let e = (ep - 1) as usize;
-        let choice = if phase == 0 { rng.below(16) } else { 4 + rng.below(12) };
+        let choice = if phase == 0 { rng.below(if opts.bp { 18 } else { 16 }) } else { 2 + rng.below(14) };
+        if phase == 1 {
+            for l in [&conn.ab, &conn.ba] {
+                if l.0.lock().unwrap().blocked {
+                    l.set(|st| st.blocked = false);
+                }
+            }
+        }
         match choice {
             // ---- client connect
             0 | 1 if connects_left > 0 && clients[e].is_some() => {
@@ -257,7 +268,12 @@ pub async fn scenario(seed: u64, opts: &LifeOpts) -> (u64, u64) {
                                     lst_closed[(oep - 1) as usize] = true;
                                     tr(json!({"ev": "api_done", "op": id, "res": "none"}))
                                 }
-                                R::Acc(Err(e)) => tr(json!({"ev": "api_done", "op": id, "res": "err", "err": e})),
+                                R::Acc(Err(e)) => {
+                                    if matches!(lop.kind, K::Accept) {
+                                        lst_closed[(oep - 1) as usize] = true;
+                                    }
+                                    tr(json!({"ev": "api_done", "op": id, "res": "err", "err": e}))
+                                }
                                 R::Insp(Ok(Some(req))) => {
                                     tr(json!({"ev": "api_done", "op": id, "res": "req", "rport": p32(req.remote_port()), "wait": req.is_wait()}));
                                     held.push((oep, req));
@@ -266,7 +282,10 @@ pub async fn scenario(seed: u64, opts: &LifeOpts) -> (u64, u64) {
                                     lst_closed[(oep - 1) as usize] = true;
                                     tr(json!({"ev": "api_done", "op": id, "res": "none"}))
                                 }
-                                R::Insp(Err(e)) => tr(json!({"ev": "api_done", "op": id, "res": "err", "err": e})),
+                                R::Insp(Err(e)) => {
+                                    lst_closed[(oep - 1) as usize] = true;
+                                    tr(json!({"ev": "api_done", "op": id, "res": "err", "err": e}))
+                                }
                                 R::Send(Ok(())) => tr(json!({"ev": "api_done", "op": id, "res": "ok"})),
                                 R::Send(Err(e)) => {
                                     ports[lop.pidx].tx_failed = true;
@@ -300,7 +319,7 @@ pub async fn scenario(seed: u64, opts: &LifeOpts) -> (u64, u64) {
                 let cands: Vec<usize> = ops
                     .iter()
                     .enumerate()
-                    .filter(|(_, o)| matches!(o.kind, K::Connect | K::Accept | K::Inspect) && o.op.polls > 0)
+                    .filter(|(_, o)| matches!(o.kind, K::Connect | K::Accept | K::Inspect | K::ReqAccept) && o.op.polls > 0)
                     .map(|(i, _)| i)
                     .collect();
                 if !cands.is_empty() {
@@ -360,10 +379,19 @@ pub async fn scenario(seed: u64, opts: &LifeOpts) -> (u64, u64) {
                         if p.sends < 4 && phase == 0 {
                             next_op += 1;
                             p.sends += 1;
+                            if p.sends == 1 && rng.chance(1, 3) {
+                                // keep sending to a gracefully closed receiver (as chmux::forward does)
+                                if let Ok(mut g) = tx.try_lock() {
+                                    g.set_override_graceful_close(true);
+                                    p.over = true;
+                                }
+                            }
                             let len = rng.range(0, 6) as usize;
                             let data: Vec<u8> = (0..len).map(|i| ((msg_id * 37 + i as u64 * 11 + 1) % 251) as u8).collect();
                             msg_id += 1;
-                            tr(json!({"ev": "api_start", "op": id, "ep": p.ep, "kind": "send", "port": p32(p.local), "data": bytes_json(&data)}));
+                            let len = if p.over { rng.range(3, 14) as usize } else { len };
+                            let data: Vec<u8> = if p.over { (0..len).map(|i| ((msg_id * 37 + i as u64 * 11 + 1) % 251) as u8).collect() } else { data };
+                            tr(json!({"ev": "api_start", "op": id, "ep": p.ep, "kind": "send", "port": p32(p.local), "data": bytes_json(&data), "override": p.over}));
                             ops.push(LOp {
                                 op: Op::new(id, p.ep, async move {
                                     let mut g = tx.lock_owned().await;
@@ -472,6 +500,13 @@ pub async fn scenario(seed: u64, opts: &LifeOpts) -> (u64, u64) {
                     acted = true;
                 }
             }
+            16 | 17 if phase == 0 && rng.chance(1, 3) => {
+                let l = if choice == 16 { &conn.ab } else { &conn.ba };
+                let now = l.0.lock().unwrap().blocked;
+                l.set(|st| st.blocked = !now);
+                tr(json!({"ev": "backpressure", "dir": l.1, "on": !now}));
+                acted = true;
+            }
             _ => {
                 // deliver a frame
                 let l = if rng.chance(1, 2) { &conn.ab } else { &conn.ba };
@@ -510,7 +545,10 @@ pub async fn scenario(seed: u64, opts: &LifeOpts) -> (u64, u64) {
     }
     let pending: Vec<u64> = ops.iter().map(|o| o.op.id).collect();
     let is_faulted = |c: &Conn| c.ab.0.lock().unwrap().faulted || c.ba.0.lock().unwrap().faulted;
-    tr(json!({"ev": "quiescent", "pending": pending, "settled": is_faulted(&conn) && since_fault_ms >= 3 * opts.timeout_ms}));
+    let free: Vec<bool> = allocs.iter().map(|a| a.try_allocate().is_some()).collect();
+    let held_n: Vec<usize> = (1..=2u64).map(|e| held.iter().filter(|(ep, _)| *ep == e).count()).collect();
+    tr(json!({"ev": "quiescent", "pending": pending, "settled": is_faulted(&conn) && since_fault_ms >= 3 * opts.timeout_ms,
+              "free_ports": free, "held": held_n}));
 
     if faulty {
         // operations issued after the failure must complete (with an error) as well
